@@ -448,10 +448,9 @@ def rule_f(ctx: Ctx) -> None:
     ctx.explain('C02.f: every built-in other than string/normalizedString has effective whiteSpace=collapse.')
 
 
-def rule_g(ctx: Ctx) -> None:
+def rule_g(ctx: Ctx, rule: str = 'C02.g') -> None:
     """Pattern hand-off slot: a restriction of a union pushes its patterns on the context (only if the slot is
     empty); the union that consumes them must empty the slot before it decodes a member, on every path."""
-    rule = 'C02.g'
     n_cons = 0
     for f in ctx.idx.iter_functions('validators'):
         if isinstance(f.node, ast.Lambda) or 'context.patterns' not in f.module.segment(f.node):
@@ -481,7 +480,7 @@ def rule_g(ctx: Ctx) -> None:
     cl = ctx.idx.func('xmlschema.validators.validation.ValidationContext.clear')
     ok = any(isinstance(s_, ast.Assign) and text(s_.targets[0]) == 'self.patterns' and text(s_.value) == 'None' for s_ in walk_no_nested(cl.node))
     ctx.ob(rule, 'ValidationContext.clear() empties the patterns slot', cl.loc(), ok, '', key='patterns-slot|clear')
-    ctx.explain('C02.g: typestate of the context.patterns hand-off slot — every consumer empties it (must-pass-through) before '
+    ctx.explain(f'{rule}: typestate of the context.patterns hand-off slot — every consumer empties it (must-pass-through) before '
                 'processing a member type; producers push only into an empty slot.')
 
 
